@@ -58,6 +58,8 @@ let table : (string * (z list -> z)) list = [
   ("kcompose", judge_kcompose);
   ("kdecomp", judge_kdecomp);
   ("tree", judge_tree);
+  ("textread", judge_textread);
+  ("textwrite", judge_textwrite);
 ]
 
 let () =
